@@ -100,10 +100,26 @@ func observe(seed int64, nInputs, reps int) []map[string]any {
 	if data, err := nestedSeacFont(); err == nil {
 		inputs = append(inputs, corpus.Input{Name: "font-nested-seac", Entry: "type1", Data: data})
 	}
-	for _, in := range inputs {
-		for r := 0; r < min(reps, 6); r++ {
-			res := corpus.Run(in.Entry, bytes.NewReader(in.Data))
-			rec(in.Entry, in.Name, sha([]byte(res.Digest+"|"+res.Err)), r)
+	// a file that defines two fonts, and a sloppy font that patches the StandardEncoding array
+	// of its interpreter in place (no "256 array copy"): reading it must not change what any
+	// other read returns, before or after
+	if a, err := nestedSeacFontNamed("Alpha", "clear"); err == nil {
+		if b, err := nestedSeacFontNamed("Beta", "clear"); err == nil {
+			inputs = append(inputs, corpus.Input{Name: "two-fonts-in-one-file", Entry: "type1", Data: append(append([]byte{}, a...), b...)})
+		}
+		patched := bytes.Replace(a, []byte("/Encoding StandardEncoding def\n"), []byte("/Encoding StandardEncoding def\nEncoding 79 /U put Encoding 65 /B put\n"), 1)
+		if !bytes.Equal(patched, a) {
+			inputs = append(inputs, corpus.Input{Name: "font-patching-StandardEncoding-in-place", Entry: "type1", Data: patched})
+		}
+	}
+	// two passes over all inputs: every input is read before and after every other one
+	nrep := min(reps, 6)
+	for pass := 0; pass < 2; pass++ {
+		for _, in := range inputs {
+			for r := pass * nrep / 2; r < (pass+1)*nrep/2 || (pass == 1 && r < nrep); r++ {
+				res := corpus.Run(in.Entry, bytes.NewReader(in.Data))
+				rec(in.Entry, in.Name, sha([]byte(res.Digest+"|"+res.Err)), r)
+			}
 		}
 	}
 	_ = ps.NewInterpreter
@@ -170,7 +186,9 @@ func determCmd(args []string) error {
 // nestedSeacFont: composites whose accent is itself a composite (hungarumlaut built
 // from two acutes, used by Ohungarumlaut, ...), so that the order in which a reader
 // resolves composites is observable in the result.
-func nestedSeacFont() ([]byte, error) {
+func nestedSeacFont() ([]byte, error) { return nestedSeacFontNamed("Nested", "pfa") }
+
+func nestedSeacFontNamed(fontName, cont string) ([]byte, error) {
 	num := func(v int64) indep.Tok { return indep.Tok{T: "n", V: v} }
 	cmd := func(c string) indep.Tok { return indep.Tok{T: "c", C: c} }
 	outline := func(sb, w, dx int64) []indep.Tok {
@@ -179,7 +197,7 @@ func nestedSeacFont() ([]byte, error) {
 	seac := func(sb, adx, ady, b, a int64) []indep.Tok {
 		return []indep.Tok{num(sb), num(600), cmd("hsbw"), num(sb), num(adx), num(ady), num(b), num(a), cmd("seac")}
 	}
-	spec := &indep.FontSpec{FontName: "Nested", Toks: map[string][]indep.Tok{}, Subrs: [][]indep.Tok{{cmd("return")}, {cmd("return")}, {cmd("return")}, {cmd("return")}},
+	spec := &indep.FontSpec{FontName: fontName, Toks: map[string][]indep.Tok{}, Subrs: [][]indep.Tok{{cmd("return")}, {cmd("return")}, {cmd("return")}, {cmd("return")}},
 		Info:    []string{"/version (1) readonly def", "/FullName (Nested) readonly def", "/FamilyName (N) readonly def", "/Weight (R) readonly def", "/ItalicAngle 0 def", "/isFixedPitch false def", "/UnderlinePosition -100 def", "/UnderlineThickness 50 def"},
 		Private: []string{"/BlueValues [-10 0 700 710] def"}}
 	addg := func(name string, t []indep.Tok) {
@@ -204,5 +222,5 @@ func nestedSeacFont() ([]byte, error) {
 	addg("uhungarumlaut", seac(33, 100, 0, 117, 205))
 	addg("Aogonek", seac(34, 300, 0, 65, 206))
 	addg("aogonek", seac(35, 200, 0, 97, 206))
-	return indep.WriteFont(spec, indep.Layout{Cont: "pfa", LenIV: 4, Names: "RD", Enc: "std"})
+	return indep.WriteFont(spec, indep.Layout{Cont: cont, LenIV: 4, Names: "RD", Enc: "std"})
 }
